@@ -49,11 +49,17 @@ func init() {
 		if !bytes.Equal(out, m.Bytes()) {
 			return []string{"err-marshal-bytes-differ"}
 		}
+		// the update signed by the previous call of this worker is still what it was (a caller signs
+		// db, KEK and PK first and writes them afterwards)
+		if prevSigned != nil && !bytes.Equal(prevSigned.Bytes(), prevSignedBytes) {
+			return []string{"err-earlier-result-changed"}
+		}
+		prevSigned, prevSignedBytes = m, append([]byte{}, out...)
 		return []string{"ok", hx(out), timeArg(av.Time), hx(av.AuthInfo.CertData), hx(rec.digest), hx(rec.sig), hx(cert.Raw),
 			t0.Format("2006-01-02T15:04:05"), t1.Format("2006-01-02T15:04:05"), fmt.Sprint(rec.calls)}
 	}
 	checkers["C06"] = checker{
-		rule: "all predefined variable names and random ASCII names, random and fixed GUIDs, attribute masks incl. APPEND_WRITE, payloads (empty database, hash lists, certificate lists, raw bytes), two keys; every case is signed in sandboxed workers started under TZ=UTC, TZ=Asia/Tokyo and TZ=America/St_Johns with a recording signer (self-signed and CA-issued certificates; one signer per zone with the latency of a hardware token, which returns after the next second has begun); the output is compared byte for byte with the Coq model sign_efi_variable (R_C06 extracted; descriptor time read back and required to lie between the UTC instants bracketing the call), the SignedData is verified over the rebuilt buffer and rejected over a one-byte-different buffer by the RFC 2315 reference verifier and by `openssl smime -verify -content`; every case is non-trivial, distinct by argument hash",
+		rule: "all predefined variable names and random ASCII names, random and fixed GUIDs, attribute masks incl. APPEND_WRITE, payloads (empty database, hash lists, certificate lists, raw bytes), two keys; every case is signed in sandboxed workers started under TZ=UTC, TZ=Pacific/Kiritimati (UTC+14), TZ=Etc/GMT+12 (UTC-12; the civil date of one of the two always differs from the UTC date) and TZ=America/St_Johns with a recording signer (self-signed and CA-issued certificates; one signer per zone with the latency of a hardware token, which returns after the next second has begun); the output (and, at the next call, the output of the previous call of the same worker once more) is compared byte for byte with the Coq model sign_efi_variable (R_C06 extracted; descriptor time read back and required to lie between the UTC instants bracketing the call), the SignedData is verified over the rebuilt buffer and rejected over a one-byte-different buffer by the RFC 2315 reference verifier and by `openssl smime -verify -content`; every case is non-trivial, distinct by argument hash",
 		run:  runC06,
 	}
 }
@@ -65,9 +71,16 @@ func opensslVerifyDetachedSD(dir string, sd, content []byte) (bool, string) {
 	return opensslVerifyData(dir, ci, content)
 }
 
+// the Marshallable the previous efi_sign call of this worker returned, and its bytes at that time
+var (
+	prevSigned      interface{ Bytes() []byte }
+	prevSignedBytes []byte
+)
+
 func runC06(c *Ctx) {
 	rng := c.Rng
-	zones := []string{"UTC", "Asia/Tokyo", "America/St_Johns"}
+	// UTC+14 and UTC-12: at every moment the civil date of at least one of them differs from the UTC date
+	zones := []string{"UTC", "Pacific/Kiritimati", "Etc/GMT+12", "America/St_Johns"}
 	workers := map[string]*Worker{}
 	for _, z := range zones {
 		workers[z] = &Worker{Env: []string{"TZ=" + z}}
